@@ -49,6 +49,12 @@ void h_run(Case &c) {
   Draw &d = c.head;
   SpecOpts so; so.misc_keep = d.chance(2, 3); so.syn.max_pus = 64; so.xml_den = 8;
   TopoSpec sp = gen_topospec(d, so);
+  // one case in eight: a memory-rich machine (NUMA nodes attached at up to three depths, 4..12 of them at one depth), the shape on which
+  // distances between NUMA nodes, memory attributes and Groups of NUMA nodes are realistic
+  bool numa_rich = d.chance(1, 8);
+  if (numa_rich) { unsigned k1 = d.range(2, 6), k2 = d.range(1, 3), k3 = d.range(1, 2); int a = d.range(0, 1), b = d.range(0, 2), cc = d.range(0, 1); if (!b && !cc) b = 1; std::string sdesc; for (int i = 0; i < a; i++) sdesc += "[numa] ";
+    sdesc += strf("%s:%u ", d.chance(1, 2) ? "pack" : "group", k1); if (k2 > 1 || cc) { for (int i = 0; i < b; i++) sdesc += "[numa] "; sdesc += strf("%s:%u ", d.chance(1, 2) ? "die" : "l3", k2); for (int i = 0; i < cc; i++) sdesc += "[numa] "; } else for (int i = 0; i < b; i++) sdesc += "[numa] ";
+    sdesc += strf("pu:%u", k3); sp.is_xml = false; sp.xmlpath.clear(); sp.synth = sdesc; c.cls("source:numa-rich"); }
   c.desc(sp.text());
   hwloc_topology_t t; hwloc_topology_init(&t);
   if (apply_spec_and_load(c, t, sp) < 0) { hwloc_topology_destroy(t); c.discard(); }
@@ -64,6 +70,17 @@ void h_run(Case &c) {
       static const unsigned long fl[] = {0, HWLOC_RESTRICT_FLAG_ADAPT_MISC, HWLOC_RESTRICT_FLAG_ADAPT_MISC | HWLOC_RESTRICT_FLAG_ADAPT_IO, HWLOC_RESTRICT_FLAG_REMOVE_CPULESS, HWLOC_RESTRICT_FLAG_REMOVE_CPULESS | HWLOC_RESTRICT_FLAG_ADAPT_MISC}; unsigned long f = d.pick(fl);
       std::string ty = hwloc_obj_type_string(o->type); unsigned li = o->logical_index; int r = hwloc_topology_restrict(t, set, f); c.descf("\n | start: restrict(cpuset of %s#%u %s, flags=0x%lx)=%d", ty.c_str(), li, bstr(set).c_str(), f, r); hwloc_bitmap_free(set);
       require_wf(c, t, "after the initial restrict to a decorated object"); c.cls("start:restrict-to-decorated-object"); } }
+  // one start in five: nested clusters of a whole level (NUMA nodes, packages, cores, ...) grouped by distances, which inserts one or two
+  // Group levels at once (the completion of their sets depends on the order in which the new levels are visited)
+  if (d.chance(1, 5) || (numa_rich && d.chance(1, 2))) { static const hwloc_obj_type_t tys[] = {HWLOC_OBJ_NUMANODE, HWLOC_OBJ_PACKAGE, HWLOC_OBJ_CORE, HWLOC_OBJ_PU, HWLOC_OBJ_L2CACHE, HWLOC_OBJ_DIE}; hwloc_obj_type_t ty = d.pick(tys); if (numa_rich && d.chance(2, 3)) ty = HWLOC_OBJ_NUMANODE; int n = hwloc_get_nbobjs_by_type(t, ty);
+    bool cpuless = false; for (hwloc_obj_t nn = NULL; (nn = hwloc_get_next_obj_by_type(t, HWLOC_OBJ_NUMANODE, nn));) if (hwloc_bitmap_iszero(nn->cpuset)) cpuless = true;
+    std::vector<hwloc_obj_t> objs; { // NUMA nodes attached at several depths are different populations: take those whose parent sits at one depth
+      std::vector<hwloc_obj_t> all; for (int i = 0; i < n; i++) all.push_back(hwloc_get_obj_by_type(t, ty, i)); if (ty == HWLOC_OBJ_NUMANODE && n) { int pd = all[d.raw() % all.size()]->parent->depth; for (auto o : all) if (o->parent->depth == pd) objs.push_back(o); } else objs = all; if (objs.size() > 12) { size_t st = d.raw() % (objs.size() - 11); objs = std::vector<hwloc_obj_t>(objs.begin() + st, objs.begin() + st + 12); } n = (int)objs.size(); }
+    if (n >= 4 && !cpuless) { size_t in = 1 + d.range(0, 2), out = in * (2 + d.range(0, 1)); std::vector<hwloc_uint64_t> v((size_t)n * n);
+      for (int i = 0; i < n; i++) for (int j = 0; j < n; j++) v[(size_t)i * n + j] = i == j ? 10 : i / in == j / in ? 20 : i / out == j / out ? 40 : 80;
+      hwloc_distances_add_handle_t h = hwloc_distances_add_create(t, "nested", HWLOC_DISTANCES_KIND_FROM_USER | HWLOC_DISTANCES_KIND_VALUE_LATENCY, 0); int r = -1; c.attempt("start: nested grouping by distances");
+      if (h && hwloc_distances_add_values(t, h, (unsigned)n, objs.data(), v.data(), 0) == 0) r = hwloc_distances_add_commit(t, h, HWLOC_DISTANCES_ADD_FLAG_GROUP);
+      c.descf("\n | start: %d %s objects grouped by nested distances (inner %zu, outer %zu)=%d", n, hwloc_obj_type_string(ty), in, out, r); require_wf(c, t, "after the initial grouping by nested distances"); c.cls("start:nested-distance-groups"); if (r == 0 && hwloc_get_type_depth(t, HWLOC_OBJ_GROUP) == HWLOC_TYPE_DEPTH_MULTIPLE) c.cls(ty == HWLOC_OBJ_NUMANODE ? "start:two-group-levels-over-numa-nodes" : "start:two-group-levels"); } }
   run_history(c, t, known_exclusions());
   hwloc_topology_destroy(t);
 }
@@ -73,6 +90,12 @@ static hwloc_topology_t load_syn(const char *s, unsigned long flags = 0) { hwloc
 static hwloc_bitmap_t bm(const char *list) { hwloc_bitmap_t b = hwloc_bitmap_alloc(); hwloc_bitmap_list_sscanf(b, list); return b; }
 
 bool h_named(const std::string &name, Case &c) {
+  if (name == "nested-numa-groups") {  // shape of a seeded change: two Group levels inserted at once above NUMA nodes, with a NUMA node attached above them
+    c.desc("[numa] pack:8 [numa] pu:2; the 8 package NUMA nodes grouped by distances 20/40/80");
+    hwloc_topology_t t = load_syn("[numa] pack:8 [numa] pu:2"); require_wf(c, t, "load"); std::vector<hwloc_obj_t> objs; for (hwloc_obj_t n = NULL; (n = hwloc_get_next_obj_by_type(t, HWLOC_OBJ_NUMANODE, n));) if (n->parent->depth > 0) objs.push_back(n);
+    CHECK(c, objs.size() == 8, "named_setup", "%zu package NUMA nodes", objs.size()); hwloc_uint64_t v[64]; for (int i = 0; i < 8; i++) for (int j = 0; j < 8; j++) v[i * 8 + j] = i == j ? 10 : i / 2 == j / 2 ? 20 : i / 4 == j / 4 ? 40 : 80;
+    hwloc_distances_add_handle_t h = hwloc_distances_add_create(t, "nested", HWLOC_DISTANCES_KIND_FROM_USER | HWLOC_DISTANCES_KIND_VALUE_LATENCY, 0); CHECK(c, h && hwloc_distances_add_values(t, h, 8, objs.data(), v, 0) == 0 && hwloc_distances_add_commit(t, h, HWLOC_DISTANCES_ADD_FLAG_GROUP) == 0, "named_setup", "add failed");
+    CHECK(c, hwloc_get_type_depth(t, HWLOC_OBJ_GROUP) == HWLOC_TYPE_DEPTH_MULTIPLE, "named_setup", "two Group levels expected"); require_wf(c, t, "after the nested grouping"); hwloc_topology_destroy(t); return true; }
   if (name == "F-C01-b3") {  // the "two-step restrict with KEEP_STRUCTURE" defect named in the property list
     c.desc("synthetic pack:2 [numa] core:2 [numa] pu:1, Core filter KEEP_STRUCTURE; restrict({0-2}, REMOVE_CPULESS) then restrict({0,2}, REMOVE_CPULESS)");
     hwloc_topology_t t; hwloc_topology_init(&t); hwloc_topology_set_type_filter(t, HWLOC_OBJ_CORE, HWLOC_TYPE_FILTER_KEEP_STRUCTURE);
